@@ -153,6 +153,12 @@ func DumpEPC(epc *common.EpochsContext, valCount uint64, withPubkeys bool) []byt
 			return
 		}
 		wl(name+"_active", s.ActiveIndices)
+		// the count the context's own getter reports for that epoch (what attestation processing checks indices against)
+		if cnt, err := epc.GetCommitteeCountPerSlot(s.Epoch); err == nil {
+			fmt.Fprintf(&sb, "%s_committee_count %d\n", name, cnt)
+		} else {
+			fmt.Fprintf(&sb, "%s_committee_count ERR\n", name)
+		}
 		for si, comms := range s.Committees {
 			for ci, c := range comms {
 				wl(fmt.Sprintf("%s_committee %d %d", name, si, ci), c)
